@@ -176,19 +176,50 @@ func TestC09(t *testing.T) {
 	}
 	// the repository's own Taggable protobuf payload (structpb maps)
 	c09Proto(run, r, run.N(2000, 60000))
-	// rotation payloads are consumed, never forwarded
-	for i := 0; i < run.N(200, 5000); i++ {
-		cfg := genCfgEnc(r)
-		f := buildFilter(cfg)
-		rp := &rotPayload{w: cryp.NewWrapper([]byte("ffffffffffffffffffffffffffffffff"), "new"), salt: []byte("s2"), info: []byte("i2"), Note: "CANARY-rotation"}
-		ev := &eventlogger.Event{Type: "t", Payload: rp}
-		res := callProcess(f, ev)
-		if cfg.allNone() {
-			continue // nothing is filtered at all: the event passes through untouched by configuration
+	// rotation payloads are consumed, never forwarded: every override map over the three classes
+	// (absent / none / redact / encrypt / hmac-sha256 each), with and without a wrapper
+	opsv := []string{"absent", "", "redact", "encrypt", "hmac-sha256"}
+	k := 0
+	for _, po := range opsv {
+		for _, so := range opsv {
+			for _, co := range opsv {
+				for _, wr := range []string{"present", "absent"} {
+					k++
+					if k%run.NBatch != run.Batch {
+						continue
+					}
+					cfg := encCfg{Wrapper: wr, Overrides: map[string]string{}}
+					for cl, o := range map[string]string{"public": po, "sensitive": so, "secret": co} {
+						if o != "absent" {
+							cfg.Overrides[cl] = o
+						}
+					}
+					f := buildFilter(cfg)
+					rp := &rotPayload{w: cryp.NewWrapper([]byte("ffffffffffffffffffffffffffffffff"), "new"), salt: []byte("s2"), info: []byte("i2"), Note: "CANARY-rotation"}
+					ev := &eventlogger.Event{Type: "t", Payload: rp}
+					res := callProcess(f, ev)
+					run.Eval("rotation|" + cfg.String())
+					if cfg.allNone() {
+						continue // nothing is filtered at all: the event passes through untouched by configuration
+					}
+					if res.Panic != "" || res.Out != nil || res.Err != nil {
+						run.Violation("shape:rotation-forwarded", fmt.Sprintf("a key-rotation payload must be consumed: out=%v err=%v panic=%s", res.Out != nil, res.Err, res.Panic), map[string]any{"config": cfg.String()})
+						continue
+					}
+					// and it must have taken effect: the next sensitive value is protected under the new wrapper
+					if so == "absent" || so == "encrypt" {
+						type sp struct {
+							S string `class:"sensitive"`
+						}
+						r2 := callProcess(f, &eventlogger.Event{Type: "t", Payload: &sp{S: "after-rotation"}})
+						if r2.Err != nil || r2.Out == nil {
+							run.Violation("shape:rotation-not-applied", fmt.Sprintf("after a rotation payload a sensitive value cannot be encrypted: %v", r2.Err), map[string]any{"config": cfg.String()})
+						} else if pt, err := cryp.Open(r2.Out.Payload.(*sp).S, []byte("ffffffffffffffffffffffffffffffff")); err != nil || string(pt) != "after-rotation" {
+							run.Violation("shape:rotation-not-applied", "after a rotation payload the next event is not protected with the new wrapper", map[string]any{"config": cfg.String()})
+						}
+					}
+				}
+			}
 		}
-		if res.Panic != "" || res.Out != nil || res.Err != nil {
-			run.Violation("shape:rotation-forwarded", fmt.Sprintf("a key-rotation payload must be consumed: out=%v err=%v panic=%s", res.Out != nil, res.Err, res.Panic), map[string]any{"config": cfg.String()})
-		}
-		run.Eval("rotation|" + cfg.String())
 	}
 }
